@@ -623,8 +623,12 @@ def rnd_seq(rng, kind):
     if kind in ("set", "frozenset"):
         items = [x for x in items if not isinstance(x, (list,))]
         return set(items) if kind == "set" else frozenset(items)
-    if rng.random() < 0.25:
-        items = [rng.choice([[1], [1, 2], [1.0], []]) for _ in range(n)]
+    if rng.random() < 0.3:
+        # unhashable items, among them equal ones that print differently ([1] == [1.0] == [True], {1} == {1.0})
+        fam = rng.choice([[[1], [1.0], [True], [1, 2], [1.0, 2], []], [[0], [False], [0.0], [[0]], [[0.0]]],
+                          [[1], [1.0], {1}, {1.0}, {True}], [[Decimal("1.0")], [1], [Decimal("1")], [[1, 2]], [[1.0, 2.0]]],
+                          [[1], [1, 2], [1.0], []]])
+        items = [rng.choice(fam) for _ in range(max(n, rng.choice([0, 2, 3])))]
     return items if kind == "list" else tuple(items)
 
 
@@ -962,6 +966,53 @@ def ELEM_TYPES_BY(enc_t):
     raise KeyError(enc_t)
 
 
+LAX_NUM = ["ge", "le", "multiple_of", "decimal_places", "max_digits"]
+
+
+def gen_lax_pair_case(rng):
+    """two (sometimes three) Lax constraints on a number, every pair of the five numeric ones, with bounds and values chosen
+    so that both transformations fire and can disturb each other (bound not a multiple of `multiple_of`, value beyond
+    the bound, more digits than `max_digits`, …); sometimes a strict third constraint"""
+    origin = rng.choice(["int", "int", "Decimal", "Decimal", "float"])
+    names = rng.sample(LAX_NUM if origin != "int" else ["ge", "le", "multiple_of", "max_digits"], rng.choice([2, 2, 2, 3]))
+    if "ge" in names and "le" in names and rng.random() < 0.5:
+        names.remove(rng.choice(["ge", "le"]))
+        names.append(rng.choice([n for n in (LAX_NUM if origin != "int" else ["multiple_of", "max_digits"]) if n not in names]))
+    T = CLS_BY_NAME[origin]
+    cs = {}
+    m = rng.choice([2, 3, 4, 5, 7])
+    lo = rng.choice([-7, -1, 0, 1, 2, 5])
+    hi = lo + rng.choice([3, 5, 8, 9, 10, 11, 100])
+    for n in names:
+        if n == "multiple_of":
+            cs[n] = m if origin != "Decimal" or rng.random() < 0.6 else Decimal(rng.choice(["0.5", "2.5", "0.3"]))
+        elif n == "ge":
+            cs[n] = T(lo) if origin != "Decimal" or rng.random() < 0.6 else Decimal(lo) + Decimal(rng.choice(["0.25", "0.5", "0.125"]))
+        elif n == "le":
+            cs[n] = T(hi) if origin != "Decimal" or rng.random() < 0.6 else Decimal(hi) + Decimal(rng.choice(["0.25", "0.5", "0.995"]))
+        elif n == "decimal_places":
+            cs[n] = rng.choice([0, 1, 2])
+        elif n == "max_digits":
+            cs[n] = rng.choice([1, 2, 3, 4])
+    lax = list(names)
+    if rng.random() < 0.3:
+        extra = rng.choice([n for n in ["gt", "lt", "ge", "le", "multiple_of", "max_digits"] if n not in cs and not (n in ("gt", "ge") and ("gt" in cs or "ge" in cs))
+                            and not (n in ("lt", "le") and ("lt" in cs or "le" in cs))] or ["max_digits"])
+        if extra not in cs:
+            cs[extra] = {"gt": T(lo - 1), "ge": T(lo), "lt": T(hi + 1), "le": T(hi), "multiple_of": m, "max_digits": 3}[extra]
+            if rng.random() < 0.3 and extra in LAXABLE:
+                lax.append(extra)
+    cands = [hi + 1, hi + 2, hi + m, lo - 1, lo - m, hi, lo, hi - 1, 10 ** 3 + 1, 99, 100, 12, 10, 9, 7]
+    v = rng.choice(cands)
+    if origin == "int":
+        val = int(v)
+    elif origin == "float":
+        val = float(v) + rng.choice([0, 0.5, 0.25, 0.125, 0.75])
+    else:
+        val = Decimal(v) + Decimal(rng.choice(["0", "0.5", "0.99", "0.995", "0.125", "0.05"]))
+    return {"op": "rule", "origin": origin, "constraints": [[n, encode(b)] for n, b in cs.items()], "lax": lax, "value": encode(val)}
+
+
 def gen_validator_case(rng, names):
     name = rng.choice(names)
     base = name[4:] if name.startswith("lax_") else name
@@ -1063,7 +1114,9 @@ class C02(Check):
                 out.append(gen_decl_case(rng))
                 continue
             k = rng.random()
-            if k < 0.45:
+            if self.lax_mode and k < 0.12:
+                out.append(gen_lax_pair_case(rng))
+            elif k < 0.45:
                 out.append(gen_rule_case(rng, self.lax_mode))
             elif k < 0.9:
                 out.append(gen_validator_case(rng, self.validator_names))
